@@ -378,6 +378,11 @@ func (v *View) startDuring(a *APICall) bool {
 		if b.Inst == a.Inst && b.API == "Start" && b.Result == "ok" && b.Call > a.Call && (a.Ret < 0 || b.Call < a.Ret) {
 			return true
 		}
+		// (also a Start issued just BEFORE the stop call - same instant, another goroutine - and
+		// still in progress when the stop was called: the library may serve the stop first)
+		if b.Inst == a.Inst && b.API == "Start" && b.Result == "ok" && b.Call < a.Call && (b.Ret < 0 || b.Ret > a.Call) {
+			return true
+		}
 	}
 	return false
 }
